@@ -14,6 +14,8 @@ Decided on the polymorphic MIR (holds for every SIZE, Hal, Transport, history):
     by the single private submission counter.
  O6 completeness: on the submission path every descriptor field (addr,len,flags,next) is copied shadow->device
     table before the index store, so no published chain contains a stale field.
+ O12 the device reads the available index where it was told (transports' queue_set register traces, = C10.M2 / C11.W3);
+     O11 also carries C06.L3's accessor / ring-pointer obligations.
 """
 from .common import *
 
